@@ -411,9 +411,11 @@ Example C02_std_run_approximate :
     so_exit o = XDone HApproxEarly /\ so_over_max o = false /\ map rst (so_roots o) = [ST_APPROXIMATED; ST_APPROXIMATED].
 Proof. eexists; split; [vm_compute; reflexivity|]. simpl; auto. Qed.
 
-(* REFUTED for the code as it is: when mpwp_max falls into a gap of the precision sequence (here 128 <= 150 <= 192) the
+(* REFUTED for the code as it was before /repo commit 6608fee8 (c_fixed = false): when mpwp_max falls into a gap of the precision sequence (here 128 <= 150 <= 192) the
    loop `while (!computed && mpwp < mpwp_max)` ends without the branch that sets over_max; == 8 == only logs; the driver
-   returns with over_max = false and a CLUSTERED root that is IN.  Replayed on the real solver on every run (-W 150). *)
+   returns with over_max = false and a CLUSTERED root that is IN.  The witness is re-run on the real solver on every run
+   (-W 150): a tree without the repair must reproduce it (a violation of C02), a repaired tree must leave through the same
+   branch with over_max reported (next theorem). *)
 Theorem C02_std_silent_cap_refuted :
   exists (cfg : scfg) (evs : list sev) (o : sout),
   c_fixed cfg = false /\ c_goal cfg = GIsolate /\ std_run cfg evs = Some o /\
@@ -422,7 +424,8 @@ Theorem C02_std_silent_cap_refuted :
 Proof. exact std_silent_cap_refuted. Qed.
 Print Assumptions C02_std_silent_cap_refuted.
 
-(* with fixes/C02_silent_precision_cap.patch (over_max recorded in that branch) it cannot happen *)
+(* with fixes/C02_silent_precision_cap.patch (over_max recorded in that branch; in /repo since commit 6608fee8, the
+   transcription the check now replays the real traces through) it cannot happen *)
 Theorem C02_std_fixed_not_silent :
   forall (cfg : scfg) (evs : list sev) (o : sout) (h : how),
   c_fixed cfg = true -> std_run cfg evs = Some o -> so_exit o = XDone h -> so_over_max o = false ->
